@@ -137,7 +137,7 @@ func buildModules(root string) []string {
 //	       (and with -graph first  G <label> <root> <heap>, flushed BEFORE the real code is called)
 //	build  load; run every function target; print the events, then  R <label> <sha256 of the stored stamp>
 //	       and  F lines as above, computed after the build
-func childMain(mode, root, order string, graph, full, wire bool, flags []string) int {
+func childMain(mode, root, order string, graph, full, wire, always bool, flags []string) int {
 	debug.SetMaxStack(256 << 20)
 	// address-space limit: a runaway allocation must kill this process, not the machine
 	lim := syscall.Rlimit{Cur: 6 << 30, Max: 6 << 30}
@@ -186,7 +186,7 @@ func childMain(mode, root, order string, graph, full, wire bool, flags []string)
 			if t.Label().Name != "default" {
 				continue
 			}
-			err := proj.Run(t.Label(), nil)
+			err := proj.Run(t.Label(), &dawn.RunOptions{Always: always})
 			for _, l := range ev.log {
 				fmt.Fprintln(out, l)
 			}
